@@ -668,3 +668,236 @@ def correspondence_expand(ctx, res, drv):
                      "on 3 and 4 qubits x every control value, CX…CRZ on every ordered pair, refused placements — get_qobj vs the "
                      "model (complete over this grid)")
     return len(reqs)
+
+
+# ------------------------------------------------------------------------------------------------------------------
+# cross-OBJECT histories in one process: what a FRESH circuit / gate object is
+
+HIST_NAMES = ["T", "X", "S", "Z", "Y", "SNOT", "SQRTNOT"]
+
+
+def custom_matrix(tag):
+    """the custom single-qubit unitary with this tag (differs from every library matrix and from every other tag)"""
+    a = 0.3 + 0.37 * tag
+    return np.array([[np.cos(a), -np.sin(a) * np.exp(0.2j * (tag + 1))], [np.sin(a), np.cos(a) * np.exp(0.2j * (tag + 1))]])
+
+
+def hist_requests(rng, thorough):
+    """histories of constructions / writes on circuit objects (ops as for `drv_gates heap`, plus Python-only in-place
+    mutations `M<c>:<attr>` of another circuit's lists), every circuit probed with every name afterwards"""
+    t = 0
+    for nm in HIST_NAMES:
+        t += 1
+        for ov in "01":
+            # the block of a library brings its own "T"; a main circuit merges it; a fresh circuit is created afterwards
+            yield {"kind": "hist", "ops": ["L%s:%d" % (nm, t), "W0", "D", "A1:0:" + ov, "D"]}
+            yield {"kind": "hist", "ops": ["D", "L%s:%d" % (nm, t), "W1", "D", "A0:1:" + ov, "A2:0:" + ov, "D", "D"]}
+        yield {"kind": "hist", "ops": ["D", "S0:%s:%d" % (nm, t), "D"]}
+        yield {"kind": "hist", "ops": ["D", "D", "S1:%s:%d" % (nm, t), "M1:dims", "M1:input", "M1:gates", "D"]}
+        yield {"kind": "hist", "ops": ["L", "W0", "W0", "S1:%s:%d" % (nm, t), "D", "A2:1:0", "D"]}
+        yield {"kind": "hist", "ops": ["D", "W0", "S0:%s:%d" % (nm, t), "D"]}
+    for _ in range(120 if not thorough else 1500):
+        ops, ndict, ncirc = [], 0, 0
+        for _ in range(rng.randint(4, 11)):
+            r = rng.random()
+            if r < 0.3 or ncirc == 0:
+                ops.append("D"); ndict += 1; ncirc += 1
+            elif r < 0.4:
+                k = rng.sample(HIST_NAMES, rng.randint(0, 2))
+                ops.append("L" + ",".join("%s:%d" % (n, rng.randint(1, 9)) for n in k)); ndict += 1
+            elif r < 0.5 and ndict:
+                ops.append("W%d" % rng.randrange(ndict)); ncirc += 1
+            elif r < 0.7:
+                ops.append("S%d:%s:%d" % (rng.randrange(ncirc), rng.choice(HIST_NAMES), rng.randint(1, 9)))
+            elif r < 0.9 and ncirc >= 2:
+                a, b = rng.sample(range(ncirc), 2)        # qc.add_circuit(qc) on a non-empty circuit never terminates
+                ops.append("A%d:%d:%d" % (a, b, rng.randint(0, 1)))
+            else:
+                ops.append("M%d:%s" % (rng.randrange(ncirc), rng.choice(["dims", "input", "gates"])))
+        ops.append("D")
+        yield {"kind": "hist", "ops": ops}
+
+
+def run_hist(w):
+    """execute the history on the implementation -> (table circuit -> {name: tag | None (library) | '?'}, anomalies of
+    freshly constructed circuits, list of the dict-object index each circuit was given (-1: default constructed))"""
+    from qutip import Qobj
+    from qutip_qip.circuit import QubitCircuit
+    from props.c09 import DOC
+    dicts, circs, given, anomalies = [], [], [], []
+    funcs = {}
+
+    def fn(tag):
+        if tag not in funcs:
+            def make(M):
+                return lambda: M
+            funcs[tag] = make(Qobj(custom_matrix(tag)))
+        return funcs[tag]
+    for op in w["ops"]:
+        k, body = op[0], op[1:]
+        if k == "D":
+            qc = QubitCircuit(2)
+            bad = []
+            if qc.user_gates != {}:
+                bad.append("user_gates=%r" % sorted(qc.user_gates))
+            if qc.gates != []:
+                bad.append("gates")
+            if list(qc.dims) != [2, 2]:
+                bad.append("dims=%r" % (qc.dims,))
+            if list(qc.input_states) != [None, None] or list(qc.output_states) != [None, None]:
+                bad.append("input/output states")
+            if any(qc.user_gates is d for d in dicts) or any(qc.gates is c.gates or qc.dims is c.dims for c in circs):
+                bad.append("a container of the new circuit is an object another circuit holds")
+            if bad:
+                anomalies.append("QubitCircuit(2) number %d is not fresh: %s" % (len(circs), ", ".join(bad)))
+            circs.append(qc); dicts.append(qc.user_gates); given.append(-1)
+        elif k == "L":
+            dicts.append({kv.split(":")[0]: fn(int(kv.split(":")[1])) for kv in body.split(",") if kv})
+        elif k == "W":
+            circs.append(QubitCircuit(2, user_gates=dicts[int(body)])); given.append(int(body))
+        elif k == "S":
+            c, nm, tag = body.split(":")
+            circs[int(c)].user_gates[nm] = fn(int(tag))
+        elif k == "A":
+            a, b, ov = body.split(":")
+            circs[int(a)].add_circuit(circs[int(b)], overwrite_user_gates=(ov == "1"))
+        elif k == "M":
+            c, attr = body.split(":")
+            qc = circs[int(c)]
+            if attr == "dims":
+                qc.dims[0] = 2
+                qc.dims.append(2); qc.dims.pop()
+            elif attr == "input":
+                qc.input_states[0] = "0"
+            else:
+                qc.add_gate("SNOT", targets=1)
+    table = []
+    for qc in circs:
+        row = {}
+        for nm in HIST_NAMES:
+            qc.add_gate(nm, targets=0)
+            M = qc.propagators(expand=False)[-1].full()
+            qc.gates.pop()
+            if np.abs(M - DOC[nm](None)).max() < 1e-12:
+                row[nm] = None
+            else:
+                tags = [t for t in range(0, 40) if np.abs(M - custom_matrix(t)).max() < 1e-12]
+                row[nm] = tags[0] if tags else "?"
+        table.append(row)
+    return table, anomalies, given
+
+
+def oracle_hist(w):
+    """the property on a history: a circuit built by `QubitCircuit(N)` whose own user_gates nobody wrote (no
+    `qc.user_gates[…] = …` on it, no `add_circuit` INTO it, its dictionary handed to nobody) reports the documented library
+    matrix for every library name, through propagators and through run(); every such constructor returns a fresh object"""
+    import qutip
+    from qutip_qip.circuit import QubitCircuit
+    from props.c09 import DOC
+    try:
+        table, anomalies, given = run_hist(w)
+    except Exception as e:
+        return True, "history %s raises %s: %s" % (w["ops"], type(e).__name__, str(e)[:100])
+    if anomalies:
+        return True, "history %s: %s" % (" ".join(w["ops"]), anomalies[0])
+    # which circuits' own dictionaries were written on purpose: bookkeeping on the ops only
+    ncirc, group, written = 0, [], set()
+    ndefault = 0
+    owner = {}                       # dict index -> group id
+    nd = 0
+    for op in w["ops"]:
+        k, body = op[0], op[1:]
+        if k == "D":
+            owner[nd] = ("d", nd); group.append(("d", nd)); nd += 1
+        elif k == "L":
+            owner[nd] = ("d", nd); nd += 1
+        elif k == "W":
+            group.append(owner[int(body)])
+        elif k == "S":
+            written.add(group[int(body.split(":")[0])])
+        elif k == "A":
+            written.add(group[int(body.split(":")[0])])
+    for c, g in enumerate(group):
+        if g in written or given[c] != -1 or any(group[j] == g for j in range(len(group)) if j != c):
+            continue
+        for nm, got in table[c].items():
+            if got is not None:
+                return True, ("history %s: circuit %d was built by QubitCircuit(2) and nobody wrote its user_gates, yet gate %r "
+                              "added by name has %s instead of the library matrix"
+                              % (" ".join(w["ops"]), c, nm, "the custom matrix #%s of another circuit" % got))
+    # the same through the simulator on a brand-new circuit after the history
+    for nm in HIST_NAMES[:3]:
+        qc = QubitCircuit(1)
+        qc.add_gate(nm, targets=0)
+        psi = (qutip.basis(2, 0) + 0.5j * qutip.basis(2, 1)).unit()
+        out = qc.run(psi).full().ravel()
+        exp = DOC[nm](None) @ psi.full().ravel()
+        if np.abs(out - exp).max() > 1e-10:
+            return True, "history %s: a new QubitCircuit(1) with gate %r: run() does not apply the library matrix" % (" ".join(w["ops"]), nm)
+    return False, "fresh circuits resolve the library"
+
+
+def correspondence_hist(ctx, res, drv):
+    """model CircHeap (rule Gen.G.circuitDefaultUserGates: a new dictionary per default-constructed circuit; a given dictionary is
+    shared; add_circuit / item assignment write the holder's dictionary) vs implementation: for every circuit of the history and
+    every probe name, custom tag or library"""
+    reqs = list(hist_requests(ctx.rng, ctx.thorough))
+    outs = drv.run(["heap ops=%s probes=%s" % (";".join(o for o in w["ops"] if not o.startswith("M")), ",".join(HIST_NAMES))
+                    for w in reqs])
+    for w, o in zip(reqs, outs):
+        res.case({"ops": w["ops"]}, nontrivial=True, tags=["cross-object-history", "len=%d" % len(w["ops"])])
+        try:
+            table, anomalies, _ = run_hist(w)
+            impl = "|".join("c%d=%s" % (c, ",".join("%s:%s" % (nm, "-" if row[nm] is None else row[nm]) for nm in HIST_NAMES))
+                            for c, row in enumerate(table))
+        except Exception as e:
+            impl, anomalies = "exc:%s:%s" % (type(e).__name__, str(e)[:80]), []
+        if o != "ok " + impl or anomalies:
+            res.disagree({"ops": w["ops"]}, o[:300], (impl + " " + "; ".join(anomalies))[:300],
+                         "model of circuit objects and their user_gates dictionaries (CircHeap) vs implementation", dict(w))
+    res.notes.append("cross-object histories: constructions (default / given dictionary), item assignments, add_circuit with and "
+                     "without overwrite, in-place mutations of other circuits' lists; 49 systematic + seeded random histories, every "
+                     "circuit probed with 7 library names through add_gate by name + propagators")
+    return len(reqs)
+
+
+def fresh_gate_requests():
+    from qutip_qip.operations import gateclass
+    for k in gateclass.GATE_CLASS_MAP:
+        yield {"kind": "fresh", "key": k}
+
+
+def oracle_fresh_gate(w):
+    """two objects of one class built from equal arguments are independent: mutating the first one's containers in place
+    does not show in a second one, which has the documented matrix"""
+    from props.c09 import SHAPES
+    key = w["key"]
+    nc, nt = SHAPES[key]
+    def mk():        # new argument lists for every object (Gate.__init__ stores the list it is given)
+        return {"key": key, "path": "class", "targets": list(range(nc, nc + nt)) if (nc and key not in ("TOFFOLI", "FREDKIN")) else
+                list(range(nc + nt)), "controls": list(range(nc)) if (nc and key not in ("TOFFOLI", "FREDKIN")) else ABSENT,
+                "arg": doc_arg_shape(key), "cv": ABSENT}
+    req = mk()
+    try:
+        g1 = build(mk())
+        snap = (list(g1.targets), None if g1.controls is None else list(g1.controls), g1.control_value)
+        g1.targets.append(9)
+        if g1.controls is not None:
+            g1.controls.append(8)
+        if isinstance(g1.arg_value, list):
+            g1.arg_value[0] = 0.111
+        else:
+            g1.arg_value = 0.111
+        g1.control_value = 0
+        g1.name = "other"
+        g2 = build(mk())
+        now = (list(g2.targets), None if g2.controls is None else list(g2.controls), g2.control_value)
+        M = g2.get_compact_qobj().full()
+    except Exception as e:
+        return True, "%s: building two objects raises %s: %s" % (key, type(e).__name__, str(e)[:80])
+    if now != snap:
+        return True, "%s: a second object built from the same arguments carries %r, the first carried %r" % (key, now, snap)
+    exp, what = expected_matrix(req, g2)
+    if exp is None or M.shape != exp.shape or np.abs(M - exp).max() > 1e-9:
+        return True, "%s: after mutating another object of the class, a new object does not have the documented matrix" % key
+    return False, "independent objects"
